@@ -104,6 +104,16 @@ class Module:
         self.docstring = ast.get_docstring(self.tree) or ""
         self._index()
 
+    def reindex(self):
+        """Rebuild the tables after the tree was rewritten in place (sa/inline.py)."""
+        from .canon import canonicalise
+        canonicalise(self.tree)
+        self.classes = {}
+        self.functions = {}
+        self.imports = {}
+        self.assigns = {}
+        self._index()
+
     def _index(self):
         for st in self.tree.body:
             if isinstance(st, ast.Import):
@@ -207,7 +217,7 @@ def _direct_parent_func(root, target):
 class Repo:
     """All modules of twosigma/memento, from disk or from an overlay {relpath: source}."""
 
-    def __init__(self, root: Optional[str] = None, overlay: Optional[Dict[str, str]] = None):
+    def __init__(self, root: Optional[str] = None, overlay: Optional[Dict[str, str]] = None, inline: bool = True):
         self.root = root or repo_root()
         self.overlay = overlay or {}
         self.modules: Dict[str, Module] = {}
@@ -225,6 +235,13 @@ class Repo:
                     src = f.read()
             name = fn[:-3]
             self.modules[name] = Module(name, rel, src)
+        self.refresh_class_index()
+        self.inliner = None
+        if inline:
+            from .inline import flatten
+            self.inliner = flatten(self)
+
+    def refresh_class_index(self):
         self._class_by_name: Dict[str, List[ClassInfo]] = {}
         for m in self.modules.values():
             for c in m.all_classes():
